@@ -14,5 +14,15 @@ def start_vs_signal(join: int, v0: int) -> bool:
     return _race(join, v0, 1, "start_vs_signal", prop="C18")
 
 
-PLAN = [("start_vs_signal", "quick", 200)]
+def start_vs_signal_anywhere(join: int, v0: int, k: int) -> bool:
+    """
+    pre: 0 <= v0 <= 1000 and 1 <= k <= 60
+    post: _
+    """
+    from harness.C04_claim import _nested_any
+
+    return _nested_any(join, v0, k, 1, False, "start_vs_signal_anywhere", prop="C18")
+
+
+PLAN = [("start_vs_signal", "quick", 200), ("start_vs_signal_anywhere", "quick", 280)]
 META = dict(_M)
